@@ -253,9 +253,13 @@ func run(r *eng.Runner) {
 	}
 	iseqs = append(iseqs, long)
 	for _, d := range iseqs {
-		for form := 0; form < 6; form++ {
+		for form := 0; form < 8; form++ {
 			var n Node
 			switch form {
+			case 6: // the compared content is empty in some iterations
+				n = &IfChanged{Then: []Node{If{Conds: []Expr{Bin{Op: ">", L: v("x"), R: lit(1)}}, Bodies: [][]Node{{T("<"), O(v("x")), T(">")}}}}}
+			case 7:
+				n = &IfChanged{Then: []Node{If{Conds: []Expr{Bin{Op: ">", L: v("x"), R: lit(1)}}, Bodies: [][]Node{{T("b")}}}}, HasElse: true, Else: []Node{T("s")}}
 			case 0:
 				n = &IfChanged{Then: []Node{O(v("x"))}}
 			case 1:
